@@ -2,9 +2,10 @@
     Model: Model/Lmtp.v (lmtp/session.go, parser.ReadDataCommand).
     Spec: Spec/LmtpDialog.v.  Proofs: Proof/LmtpData.v, LmtpDialog.v, LmtpTx.v.
 
-    [accepts] (ParseMessage+ValidateMessage verdict) and [delivers] (storage
-    result per recipient) are universally quantified: every theorem holds for
-    every behaviour of net/mail and of the stores. *)
+    [accepts] (ParseMessage+ValidateMessage verdict), [delivers] (storage
+    result per recipient) and [over] (the over-quota set of handleDATA) are
+    universally quantified: every theorem holds for every behaviour of
+    net/mail and of the stores and for EVERY over-quota set. *)
 From Coq Require Import String Ascii List Bool ZArith NArith.
 From Raven Require Import Base.GoStr Model.Lmtp Spec.LmtpDialog Spec.LmtpStream
      Proof.LmtpData Proof.LmtpDialog Proof.LmtpTx.
@@ -45,17 +46,17 @@ Print Assumptions c16_size_limit_any_stream.
     recipient limit, DATA only with a recipient, 503/452 only when that is the
     case, and after 354 exactly one final reply per accepted recipient in RCPT
     order, after which the transaction is over. *)
-Theorem c16_sequencing : forall accepts delivers c ls,
-  cmd_lines_ascii accepts delivers c st0 MCmd ls = true ->
-  dialog_ok (max_rcpts c) (fst (run accepts delivers c st0 MCmd ls)) = true.
-Proof. intros accepts delivers c ls _. apply dialog_ok_run. Qed.
+Theorem c16_sequencing : forall accepts delivers over c ls,
+  cmd_lines_ascii accepts delivers over c st0 MCmd ls = true ->
+  dialog_ok (max_rcpts c) (fst (run accepts delivers over c st0 MCmd ls)) = true.
+Proof. intros accepts delivers over c ls _. apply dialog_ok_run. Qed.
 Print Assumptions c16_sequencing.
 
 (** (c) recipient limit: never more than max_recipients recipients are held,
     whatever the stream *)
-Theorem c16_rcpt_limit : forall accepts delivers c ls,
+Theorem c16_rcpt_limit : forall accepts delivers over c ls,
   0 <= max_rcpts c ->
-  Z.of_nat (length (rcpts (fst (run_state accepts delivers c st0 MCmd ls)))) <= max_rcpts c.
+  Z.of_nat (length (rcpts (fst (run_state accepts delivers over c st0 MCmd ls)))) <= max_rcpts c.
 Proof. intros. apply rcpts_bound; auto. Qed.
 Print Assumptions c16_rcpt_limit.
 
@@ -65,35 +66,37 @@ Print Assumptions c16_rcpt_limit.
     either terminator and every continuation [rest]: the server answers 354,
     then one reply per recipient in RCPT order - a delivery reply about exactly
     the octets of [b], or a refusal (552 over the size limit, 554 refused by
-    the message checks) for that recipient - and then does exactly what a
+    the message checks, 552 for exactly the recipients in the over-quota set,
+    each in its own RCPT position) for that recipient - and then does exactly what a
     session in the reset state does with [rest]: no line of [b] was executed
     as a command and the session is ready for the next transaction. *)
-Theorem c16_replies_per_recipient : forall accepts delivers c s dl args b term rest,
+Theorem c16_replies_per_recipient : forall accepts delivers over c s dl args b term rest,
   all_ascii dl = true ->
   parse_cmd dl = Some (S_ "DATA", args) ->
   mail_seen s = true -> rcpts s <> [] ->
   is_term term = true ->
   0 <= max_size c ->
-  run accepts delivers c s MCmd (dl :: stuff b ++ term :: rest) =
-  (let '(e, r) := run accepts delivers c (reset s) MCmd rest in
-   (Reply TData 354 [] :: finals_of accepts delivers c s b ++ e, r)).
-Proof. intros accepts delivers c s dl args b term rest _. apply transaction. Qed.
+  run accepts delivers over c s MCmd (dl :: stuff b ++ term :: rest) =
+  (let '(e, r) := run accepts delivers over c (reset s) MCmd rest in
+   (Reply TData 354 [] :: finals_of accepts delivers over c s b ++ e, r)).
+Proof. intros accepts delivers over c s dl args b term rest _. apply transaction. Qed.
 Print Assumptions c16_replies_per_recipient.
 
-Theorem c16_transaction_spec : forall accepts delivers c s dl args b term rest,
+Theorem c16_transaction_spec : forall accepts delivers over c s dl args b term rest,
   all_ascii dl = true ->
   parse_cmd dl = Some (S_ "DATA", args) ->
   mail_seen s = true -> rcpts s <> [] ->
   is_term term = true ->
   0 <= max_size c ->
-  tx_ok (concat b) (rcpts s) (fst (run accepts delivers c (reset s) MCmd rest))
-        (fst (run accepts delivers c s MCmd (dl :: stuff b ++ term :: rest))) = true.
-Proof. intros accepts delivers c s dl args b term rest _. apply transaction_tx_ok. Qed.
+  tx_ok (concat b) (rcpts s) (fst (run accepts delivers over c (reset s) MCmd rest))
+        (fst (run accepts delivers over c s MCmd (dl :: stuff b ++ term :: rest))) = true.
+Proof. intros accepts delivers over c s dl args b term rest _. apply transaction_tx_ok. Qed.
 Print Assumptions c16_transaction_spec.
 
 Definition yes : str -> bool := fun _ => true.
 Definition no : str -> bool := fun _ => false.
 Definition dl_ok : str -> str -> bool := fun _ _ => true.
+Definition no_over : str -> str -> bool := fun _ _ => false.
 Definition L (s : string) : str := S_ s ++ crlf.
 Definition c10 : cfg := {| max_size := 10; max_rcpts := 5 |}.
 
@@ -134,11 +137,11 @@ Example c16_session_example :
              L "RCPT TO:<u2@example.com>"; L "RCPT TO:<u3@example.com>"; L "DATA"] ++ stuff body ++
             [dot_crlf; L "MAIL FROM:<b@example.com>"; L "RCPT TO:<u1@example.com>"; L "DATA"] ++
             stuff body ++ [dot_lf; L "QUIT"; L "NOOP"] in
-  cmd_lines_ascii yes dl_ok c st0 MCmd ls = true /\
-  dialog_ok (max_rcpts c) (fst (run yes dl_ok c st0 MCmd ls)) = true /\
+  cmd_lines_ascii yes dl_ok no_over c st0 MCmd ls = true /\
+  dialog_ok (max_rcpts c) (fst (run yes dl_ok no_over c st0 MCmd ls)) = true /\
   length (filter (fun e => match e with Deliver _ d _ => str_eqb d (concat body) | _ => false end)
-                 (fst (run yes dl_ok c st0 MCmd ls))) = 3%nat /\
-  snd (run yes dl_ok c st0 MCmd ls) = Some [L "NOOP"].
+                 (fst (run yes dl_ok no_over c st0 MCmd ls))) = 3%nat /\
+  snd (run yes dl_ok no_over c st0 MCmd ls) = Some [L "NOOP"].
 Proof. vm_compute. repeat split; reflexivity. Qed.
 
 (** the executable whole-session spec [stream_ok] (evaluated on the
@@ -152,7 +155,7 @@ Definition render (e : ev) : reply :=
   | Refuse r code => (code, S_ "for <" ++ r ++ S_ ">")
   end.
 Definition model_stream_ok (accepts : str -> bool) (c : cfg) (ls : list str) : bool :=
-  stream_ok (max_rcpts c) ls (map render (fst (run accepts dl_ok c st0 MCmd ls))).
+  stream_ok (max_rcpts c) ls (map render (fst (run accepts dl_ok no_over c st0 MCmd ls))).
 
 Example c16_stream_ok_examples :
   let c := {| max_size := 1000; max_rcpts := 2 |} in
@@ -166,7 +169,7 @@ Example c16_stream_ok_examples :
   model_stream_ok no c10 [L "LHLO x"; L "MAIL FROM:<a@example.com>"; L "RCPT TO:<u1@example.com>";
                           L "RCPT TO:<u2@example.com>"; L "DATA"; L "hello"; dot_crlf; L "MAIL FROM:<b@example.com>"] = true /\
   model_stream_ok yes c10 [L "LHLO x"; L "MAIL FROM:<>"; L "RCPT TO:<u1@example.com>"; L "MAIL FROM:<>"] = true /\
-  fst (run yes dl_ok c10 st0 MCmd [L "LHLO x"; L "MAIL FROM:<>"; L "RCPT TO:<u1@example.com>"; L "MAIL FROM:<>"])
+  fst (run yes dl_ok no_over c10 st0 MCmd [L "LHLO x"; L "MAIL FROM:<>"; L "RCPT TO:<u1@example.com>"; L "MAIL FROM:<>"])
     = [Reply TLhlo 250 (S_ "x"); Reply TMail 250 []; Reply TRcpt 250 (S_ "u1@example.com"); Reply TMail 503 []].
 Proof. vm_compute. repeat split; reflexivity. Qed.
 
@@ -178,4 +181,34 @@ Proof. vm_compute. repeat split; reflexivity. Qed.
 Example c16_bare_lf_observation :
   read_data_cmd (S_ "a" ++ [LF] ++ S_ "." ++ crlf ++ S_ "RSET" ++ crlf ++ dot_crlf) 100
   = (DOk (S_ "a" ++ [LF]), S_ "RSET" ++ crlf ++ dot_crlf).
+Proof. vm_compute. reflexivity. Qed.
+
+(** quota: with the over-quota set {bob} and RCPT alice, bob, carol the replies
+    are delivery, 552 for bob, delivery - each in its own RCPT position - and
+    the session is ready for the next transaction *)
+Example c16_quota_in_rcpt_order :
+  let over_bob : str -> str -> bool := fun r _ => str_eqb r (S_ "bob@example.com") in
+  let c := {| max_size := 1000; max_rcpts := 5 |} in
+  let ls := [L "LHLO x"; L "MAIL FROM:<a@example.com>"; L "RCPT TO:<alice@example.com>";
+             L "RCPT TO:<bob@example.com>"; L "RCPT TO:<carol@example.com>"; L "DATA";
+             L "From: a@example.com"; L ""; L "hi"; dot_crlf; L "MAIL FROM:<b@example.com>"] in
+  skipn 5 (fst (run yes dl_ok over_bob c st0 MCmd ls)) =
+    [Reply TData 354 []; Deliver (S_ "alice@example.com") (concat [L "From: a@example.com"; L ""; L "hi"]) true;
+     Refuse (S_ "bob@example.com") 552;
+     Deliver (S_ "carol@example.com") (concat [L "From: a@example.com"; L ""; L "hi"]) true;
+     Reply TMail 250 (S_ "b@example.com")] /\
+  stream_ok 5 ls (map render (fst (run yes dl_ok over_bob c st0 MCmd ls))) = true.
+Proof. vm_compute. split; reflexivity. Qed.
+
+(** regression (seeded change C16-3): the 552 for the over-quota recipient sent
+    first, then the delivery replies: one reply per recipient, but not in RCPT
+    order - rejected by the stream spec (literal replies, no model involved) *)
+Example c16_quota_replies_out_of_order_rejected :
+  stream_ok 5 [L "LHLO x"; L "MAIL FROM:<a@example.com>"; L "RCPT TO:<alice@example.com>";
+               L "RCPT TO:<bob@example.com>"; L "RCPT TO:<carol@example.com>"; L "DATA";
+               L "From: a@example.com"; L ""; L "hi"; dot_crlf; L "QUIT"]
+            [(250, []); (250, []); (250, []); (250, []); (250, []); (354, []);
+             (552, S_ "5.2.2 <bob@example.com> mailbox full");
+             (250, S_ "2.0.0 Message accepted for delivery to <alice@example.com>");
+             (250, S_ "2.0.0 Message accepted for delivery to <carol@example.com>"); (221, [])]%N = false.
 Proof. vm_compute. reflexivity. Qed.
